@@ -213,16 +213,16 @@ static void once_prog()
 int main(int argc, char** argv)
 {
     static const pmc_spec specs[] = {
-        {"latch_3", latch_prog<3, false>, 2, 3, 0.2, 0.2, 1, "F-addr: latch (counter_, spinlock, cv queue, notified_) + task state words", nullptr, nullptr},
+        {"once_3", once_prog<3>, 1, 2, 0.1, 0.1, 1, "3 callers", nullptr, nullptr},
+        {"once_2", once_prog<2>, 2, 3, 0.1, 0.05, 1, "F-addr: once_flag (status_, embedded event) + task state words", nullptr, nullptr},
+        {"event_os", event_prog<true>, 2, 3, 0.05, 0.05, 1, "event on plain OS threads", nullptr, nullptr},
+        {"event_tasks", event_prog<false>, 2, 3, 0.1, 0.1, 1, "F-addr: event (event_, spinlock, cv queue) + task state words", nullptr, nullptr},
+        {"barrier_os_3_wrap", barrier_prog<3, 3, true, 252>, 1, 2, 0.05, 0.05, 1, "3 phases on OS threads with the phase byte starting at 252: the phases cross the 8-bit wrap-around", nullptr, nullptr},
+        {"barrier_os_3", barrier_prog<3, 2, true>, 1, 2, 0.1, 0.1, 1, "barrier on plain OS threads (spin wait through sched_yield)", nullptr, nullptr},
         {"latch_os_3", latch_prog<3, true>, 2, 3, 0.05, 0.05, 1, "latch on plain OS threads; all pthread ops are points", nullptr, nullptr},
         {"barrier_2", barrier_prog<2, 2, false>, 2, 3, 0.15, 0.15, 1, "F-addr: barrier (phase, expected, expected_adjustment) + ticket array + task state words", nullptr, nullptr},
+        {"latch_3", latch_prog<3, false>, 2, 3, 0.2, 0.2, 1, "F-addr: latch (counter_, spinlock, cv queue, notified_) + task state words", nullptr, nullptr},
         {"barrier_3", barrier_prog<3, 2, false>, 1, 2, 0.2, 0.25, 1, "barrier with 3 participants on 2 workers (non power of two, more participants than workers)", nullptr, nullptr},
-        {"barrier_os_3", barrier_prog<3, 2, true>, 1, 2, 0.1, 0.1, 1, "barrier on plain OS threads (spin wait through sched_yield)", nullptr, nullptr},
-        {"barrier_os_3_wrap", barrier_prog<3, 3, true, 252>, 1, 2, 0.05, 0.05, 1, "3 phases on OS threads with the phase byte starting at 252: the phases cross the 8-bit wrap-around", nullptr, nullptr},
-        {"event_tasks", event_prog<false>, 2, 3, 0.1, 0.1, 1, "F-addr: event (event_, spinlock, cv queue) + task state words", nullptr, nullptr},
-        {"event_os", event_prog<true>, 2, 3, 0.05, 0.05, 1, "event on plain OS threads", nullptr, nullptr},
-        {"once_2", once_prog<2>, 2, 3, 0.1, 0.05, 1, "F-addr: once_flag (status_, embedded event) + task state words", nullptr, nullptr},
-        {"once_3", once_prog<3>, 1, 2, 0.1, 0.1, 1, "3 callers", nullptr, nullptr},
     };
     static const char* assumptions[] = {"sequentially consistent interleavings only", "2 worker threads; 2-3 participants; 2 barrier phases"};
     pmc_config cfg{};
@@ -231,7 +231,7 @@ int main(int argc, char** argv)
     cfg.assumptions = assumptions;
     cfg.n_assumptions = 2;
     cfg.warmup = rt::warmup;
-    cfg.quick_budget_s = 110;
+    cfg.quick_budget_s = 130;    // cheap specs first: unused budget is carried over to the later ones
     cfg.thorough_budget_s = 900;
     return pmc_main(argc, argv, &cfg, specs, sizeof specs / sizeof specs[0]);
 }
